@@ -51,6 +51,10 @@ HISTORY = {
     # the same file names as the probes use, holding other contents
     "same-file-names": ("low", "*=0x8000\n.table 'p.tbl'\n.text 'ab'\n.incbin 'p.bin'\n.include 'p.s'\n.include_ips 'p.ips', 0x10\n",
                         {"p.tbl": "71=a\n72=b\n", "p.bin": b"\x99\x98\x97\x96\x95", "p.s": ".db 0x77, 0x78\nincluded_label:\n", "p.ips": b"PATCH\x00\x00\x40\x00\x03abcEOF"}),
+    "fail-inside-include": ("low", "*=0x8000\n.db 1\n.include 'p.s'\n.db 2\n", {"p.s": "nop\nlda.q 0\n"}),
+    "fail-syntax-inside-include": ("low", "*=0x8000\n.include 'p.s'\n", {"p.s": "{\nnop\n"}),
+    "fail-inside-table": ("low", "*=0x8000\n.table 'p.tbl'\n.text 'ab'\n.dw nosuch\n", {"p.tbl": "61=a\n62=b\n"}),
+    "fail-inside-ips": ("low", "*=0x8000\n.include_ips 'p.ips', 0\n", {"p.ips": b"PATCH\x00\x01"}),
     "file-api": ("low", None, {}),
     "cli": ("low", None, {}),
 }
@@ -99,7 +103,7 @@ def jobs(tier, seed):
     # history first, in a process that has never seen the probe: the result is compared with the
     # probe's known output (catches state keyed by file name / source text that a first run would prime)
     for pn in EXPECT:
-        for h in ("same-file-names", "defs-table", "valid", "fail-node-error"):
+        for h in ("same-file-names", "defs-table", "valid", "fail-node-error", "fail-inside-include", "fail-syntax-inside-include", "fail-inside-table", "fail-inside-ips"):
             out.append({"id": f"{pn}/history-first/{h}", "probe": pn, "history": [h], "order": "history-first"})
     rnd = random.Random(seed * 131 + 5)
     for k in range(120 if tier == "quick" else 300):
